@@ -105,6 +105,23 @@ def catalogue(n, origin=0, rng=None):
     out.append(SpanSpec('pd.DatetimeIndex[D]', (lambda n=n, o=origin: pd.date_range(start=f'{2001 + o}-02-27', periods=n, freq='D')),
                         [[d, d.strftime('%Y-%m-%d')] for d in dd], [pd.Timestamp('1999-01-01'), '1999-01-01'],
                         text_labels=[d.strftime('%Y-%m-%d') for d in dd]))
+    # NumPy-scalar / standard-library spellings of the same labels (what iterating over an array or `index.values` yields)
+    import datetime
+    for spec in out:
+        if spec.kind == 'list[mixed hashables]':
+            continue
+        for alts in spec.labels:
+            p0 = alts[0]
+            extra = []
+            if isinstance(p0, (int, np.integer)) and not isinstance(p0, (bool, np.bool_)):
+                extra = [np.int64(p0), np.int32(p0)]
+            elif isinstance(p0, str):
+                extra = [np.str_(p0)]
+            elif isinstance(p0, pd.Timestamp):
+                extra = [p0.to_datetime64(), np.datetime64(p0.strftime('%Y-%m-%d')), p0.to_pydatetime(), datetime.datetime(p0.year, p0.month, p0.day)]
+            for x in extra:
+                if not any(type(x) is type(a) for a in alts):
+                    alts.append(x)
     # absent labels of every hashable kind, whatever the span holds (none of them equals a label of any spec above)
     for spec in out:
         spec.absent = list(spec.absent) + [x for x in EXOTIC_ABSENT if not any(type(x) is type(a) and x == a for a in spec.absent)]
